@@ -269,7 +269,7 @@ mod harness {
         let db: i8 = kani::any();
         let sb: i32 = kani::any();
         let ob: i8 = kani::any();
-        kani::assume(da >= -2 && da <= 2 && db >= -2 && db <= 2 && sb >= 0 && sb < 86_400 && ob >= -12 && ob <= 14);
+        kani::assume(da >= -1 && da <= 1 && db >= -1 && db <= 1 && sb >= 0 && sb < 86_400 && ob >= -12 && ob <= 14);
         let mut d = liquid_core::model::Date::from_ymd(2020, 6, 15);
         *d = *d + time::Duration::days(da as i64);
         let a = ScalarCow::new(d);
